@@ -1,11 +1,143 @@
+/-
+C06 driver.  Case lines (REC as in C05: NAME/TYPE/CLS/TTL/RDATA):
+  serial A B                                   → lt | eq | gt | none          (SerialNumber::partial_cmp)
+  tag RDATAHEX                                 → key tag                      (calculate_key_tag_internal)
+  attl EXP OTTL RECTTL NOW                     → authenticated TTL
+  vk NOW KPROOF KEY SIG NAME TYPE ORC REC*     → `ok P TTL|none` | `err P`    (verify_rrset_with_dnskey)
+  begin [ta=ALG:PK,…] [pos=LO:HI] [neg=LO:HI]  → resets the validation cache (ta: trust anchors, harness only)
+  h NOW INST CK KEYS SIG NAME TYPE ORCS REC*   → `fresh|cached P ttl… sig P TTL dev=XY` (verify_rrsets via send; X: class outlivesSignature, Y: class sameKeyOtherRdata)
+  hold …same…                                  → the same for the pre-repair cache model (validatePreFix; regression only)
+  end
+KEY  = OWNER;FLAGS;ALG;PUBKEYHEX        KEYS = KEY;PROOF|KEY;PROOF|…  (`-` = none)
+SIG  = OWNER;CLS;TTL;TC;ALG;LABELS;OTTL;EXP;INC;TAG;SIGNER;SIGHEX
+ORC  = hex of the TBS bytes for which the real crypto accepts (KEY, signature), or `!`
+ORCS = ORC|ORC|… one per key
+P    = S | I | B | N
+-/
 import HickoryVerif.Drv.Proto
+import HickoryVerif.Drv.C05
+import HickoryVerif.Model.SigCheck
 
 namespace HickoryVerif.Drv.C06
-open HickoryVerif HickoryVerif.Drv
+open HickoryVerif HickoryVerif.Drv HickoryVerif.Tbs HickoryVerif.SigCheck
 
-abbrev State := Unit
-def init : State := ()
+structure State where
+  cache : Cache := []
+  cfg : CacheConfig := {}
+  /-- the requests of the current history whose verdict was freshly computed -/
+  past : List Request := []
+  deriving Inhabited
 
-def step (s : State) (_toks : List String) : State × String := (s, "bad-op")
+def init : State := {}
+
+def parseProof : String → Option Proof
+  | "S" => some .secure | "I" => some .insecure | "B" => some .bogus | "N" => some .indeterminate
+  | _ => none
+
+def showProof : Proof → String
+  | .secure => "S" | .insecure => "I" | .bogus => "B" | .indeterminate => "N"
+
+def parseKeyFields : List String → Option Dnskey
+  | [o, f, a, p] => do
+    pure { owner := ← parseName o, flags := ← f.toNat?, algorithm := ← a.toNat?, pubkey := ← parseHex p }
+  | _ => none
+
+def parseKey (tok : String) : Option Dnskey := parseKeyFields (tok.splitOn ";")
+
+def parseKeyP (tok : String) : Option (Dnskey × Proof) :=
+  match tok.splitOn ";" with
+  | [o, f, a, p, pr] => do pure (← parseKeyFields [o, f, a, p], ← parseProof pr)
+  | _ => none
+
+def parseKeys (tok : String) : Option (List (Dnskey × Proof)) :=
+  if tok == "-" then some [] else (tok.splitOn "|").mapM parseKeyP
+
+def parseSig (tok : String) : Option Rrsig :=
+  match tok.splitOn ";" with
+  | [o, c, ttl, tc, alg, lab, ottl, exp, inc, tag, signer, sg] => do
+    let input : SigInput := {
+      typeCovered := ← tc.toNat?, algorithm := ← alg.toNat?, numLabels := ← lab.toNat?,
+      originalTtl := ← ottl.toNat?, expiration := ← exp.toNat?, inception := ← inc.toNat?,
+      keyTag := ← tag.toNat?, signer := ← parseName signer }
+    pure { owner := ← parseName o, cls := ← c.toNat?, ttl := ← ttl.toNat?, input, sig := ← parseHex sg }
+  | _ => none
+
+def parseOrc (tok : String) : Option (Option Bytes) :=
+  if tok == "!" then some none else (parseHex tok).map some
+
+def showTtl : Option Nat → String
+  | some t => toString t
+  | none => "none"
+
+def parseRange (s : String) : Option (Nat × Nat) :=
+  match s.splitOn ":" with
+  | [lo, hi] => do pure (← lo.toNat?, ← hi.toNat?)
+  | _ => none
+
+def parseCfg : List String → CacheConfig → Option CacheConfig
+  | [], c => some c
+  | t :: ts, c =>
+    match t.splitOn "=" with
+    | ["pos", r] => do parseCfg ts { c with positive := some (← parseRange r) }
+    | ["neg", r] => do parseCfg ts { c with negative := some (← parseRange r) }
+    | ["ta", _] => parseCfg ts c   -- trust anchors of the block: harness only
+    | _ => none
+
+def step (s : State) (toks : List String) : State × String :=
+  match toks with
+  | ["serial", a, b] =>
+    match a.toNat?, b.toNat? with
+    | some a, some b =>
+      (s, match serialCmp a b with | some o => ordStr o | none => "none")
+    | _, _ => (s, "bad-op")
+  | ["tag", h] =>
+    match parseHex h with
+    | some b => (s, toString (keyTag b))
+    | none => (s, "bad-op")
+  | ["attl", exp, ottl, rttl, now] =>
+    match exp.toNat?, ottl.toNat?, rttl.toNat?, now.toNat? with
+    | some exp, some ottl, some rttl, some now =>
+      (s, toString (min (min rttl ottl) (exp - now)))
+    | _, _, _, _ => (s, "bad-op")
+  | "vk" :: now :: kp :: key :: sg :: name :: ty :: orc :: recs =>
+    let r : Option String := do
+      let now ← now.toNat?; let kp ← parseProof kp; let key ← parseKey key; let sg ← parseSig sg
+      let name ← parseName name; let ty ← ty.toNat?; let orc ← parseOrc orc
+      let recs ← recs.mapM C05.parseRecord
+      let oracle : SigOracle := fun k tbs sig => k == key && sig == sg.sig && orc == some tbs
+      match verifyRrsetWithDnskey oracle key kp sg name.toLowercase ty recs now with
+      | .ok (p, ttl) => pure s!"ok {showProof p} {showTtl ttl}"
+      | .error p => pure s!"err {showProof p}"
+    (s, r.getD "bad-op")
+  | "begin" :: cfg =>
+    match parseCfg cfg {} with
+    | some c => ({ cache := [], cfg := c, past := [] }, "begin")
+    | none => (s, "bad-op")
+  | ["end"] => ({}, "end")
+  | op :: now :: inst :: ck :: keys :: sg :: name :: ty :: orcs :: recs =>
+    -- `h`: the cache as it is; `hold`: the model of the cache before the repairs 411522f / a831deb
+    -- (regression only)
+    if op != "h" && op != "hold" then (s, "bad-op") else
+    let r : Option (State × String) := do
+      let now ← now.toNat?; let inst ← inst.toNat?; let ck ← parseHex ck
+      let keys ← parseKeys keys; let sg ← parseSig sg
+      let name ← parseName name; let ty ← ty.toNat?
+      let orcs ← if orcs == "-" then some [] else (orcs.splitOn "|").mapM parseOrc
+      let recs ← recs.mapM C05.parseRecord
+      let table := (keys.map (·.1)).zip orcs
+      let oracle : SigOracle := fun k tbs sig =>
+        sig == sg.sig && table.any (fun (k', o) => k' == k && o == some tbs)
+      let req : Request := { ck, dnskeys := keys, rrsig := sg, keyName := name.toLowercase,
+                             keyType := ty, records := recs, now, inst }
+      let (c', v, fresh) :=
+        if op == "h" then validate oracle s.cfg s.cache req else validatePreFix oracle s.cfg s.cache req
+      let ttls := " ".intercalate (recs.map fun r => toString (updatedTtl v r.ttl))
+      let sigOut :=
+        if v.isOk then s!"{showProof v.proof} {updatedTtl v sg.ttl}" else s!"N {sg.ttl}"
+      let dev2 := !fresh && v.proof == .secure && s.past.any (fun r' => sameKeyOtherRdata r' req)
+      pure ({ s with cache := c', past := if fresh then req :: s.past else s.past },
+        s!"{if fresh then "fresh" else "cached"} {showProof v.proof} {ttls} sig {sigOut} dev={showBool (outlivesSignature req v fresh)}{showBool dev2}")
+    r.getD (s, "bad-op")
+  | _ => (s, "bad-op")
 
 end HickoryVerif.Drv.C06
